@@ -172,6 +172,7 @@ def unify_helpers(facts, fn):
     [(helper fn, [call terminators in unify])] for helpers that call occurs() or UnionFind::union"""
     import pathrules as P
     out = []
+    fn = facts.fns.get(fn.id, fn)      # helper calls are visible in the plain view only
     mod = fn.qname.rsplit('::', 1)[0]
     seen = {}
     for bi, t in fn.calls():
